@@ -1,26 +1,3 @@
--- Root of the `SonicSpec` library: models, proofs and property theorems.
-import SonicSpec.Model.Hex
-import SonicSpec.Model.Str
-import SonicSpec.Model.JsonTree
-import SonicSpec.Model.GoTypes
+-- Root of the `SonicSpec` library. Deliberately imports only the executable side (models + driver);
+-- proof and property modules are built as separate targets (see lakefile.toml `globs`).
 import SonicSpec.Driver.Dispatch
-import SonicSpec.Props.C20
-import SonicSpec.Model.Num
-import SonicSpec.Model.NumFmt
-import SonicSpec.Model.NumSpec
-import SonicSpec.Props.C19
-import SonicSpec.Props.C10
-import SonicSpec.Model.StrUtf8
-import SonicSpec.Model.StrHtml
-import SonicSpec.Model.StrSpec
-import SonicSpec.Props.C06
-import SonicSpec.Props.C05
-import SonicSpec.Props.C13
-import SonicSpec.Props.C17
-import SonicSpec.Model.IO
-import SonicSpec.Model.JsonGrammar
-import SonicSpec.Model.JsonValidate
-import SonicSpec.Props.C02
-import SonicSpec.Props.C18
-import SonicSpec.Props.C08
-import SonicSpec.Props.C09
